@@ -36,15 +36,23 @@ static void one(uint64_t t, bool libc, const char* cls) {
         static unsigned tzi; const char* tz = TZS[tzi++ % 6];
         setenv("TZ", tz, 1); tzset();
         pv_wrap_time_scripted = 1; pv_wrap_time_value = (time_t)t;
-    } else pv_w->time_value = t;
+    } else {
+        pv_w->time_value = t; pv_w->time_script_n = 0;
+        static unsigned g_moving;
+        if (++g_moving % 4 == 0) { pv_w->time_script[0] = t; pv_w->time_script[1] = t + PV_STEP + g_moving % 977; pv_w->time_script[2] = (g_moving & 4) ? PV_EPOCH - 7 : t + 2 * PV_STEP; pv_w->time_script_n = 3; }
+    }
     polyseed_data* s = NULL;
     int st = pv_api_create(0, &s);
-    pv_wrap_time_scripted = 0;
+    pv_wrap_time_scripted = 0; pv_w->time_script_n = 0;
+    int nreads = pv_w->time_reads; uint64_t seen[8]; memcpy(seen, pv_w->time_seen, sizeof seen);
     PV_COUNT("evaluations", 1);
     if (st != POLYSEED_OK) { pv_violation("C11/create-failed", "t=%llu -> %s", (unsigned long long)t, pv_status_name(st)); return; }
-    /* the clock that was consulted must be the configured one, exactly once */
     uint64_t inj = pv_w->total[PV_EV_TIME] - before_inj, lc = pv_wrap_count[PV_WRAP_TIME] - before_libc;
-    if (libc ? (lc != 1 || inj != 0) : (inj != 1 || lc != 0)) pv_violation("C11/clock-source", "[%s] injected clock read %llu times, libc time() %llu times", libc ? "libc" : "injected", (unsigned long long)inj, (unsigned long long)lc);
+    /* the configured source must be consulted (at least once) and the other one not at all; how often is the library's business */
+    if (libc ? (lc < 1 || inj != 0) : (inj < 1 || lc != 0)) pv_violation("C11/clock-source", "[%s] injected clock read %llu times, libc time() %llu times", libc ? "libc" : "injected", (unsigned long long)inj, (unsigned long long)lc);
+    /* should the library read a moving clock several times, any of the readings is "the" creation time (injected source only: every
+     * reading after the first is different in a quarter of the cases, see g_moving) */
+    if (!libc && nreads > 1) { uint64_t B0 = pv_api_get_birthday(s); for (int i = 1; i < nreads && i < 8; ++i) if (B0 == pv_m_birthday_time(pv_m_birthday_of(seen[i]))) t = seen[i]; PV_COUNT("creates.reading_the_clock_more_than_once", 1); }
     uint64_t B = pv_api_get_birthday(s);
     uint64_t want = pv_m_birthday_time(pv_m_birthday_of(t));
     bool ok = true;
